@@ -3,10 +3,16 @@ package msgformat
 import (
 	"encoding/binary"
 	"errors"
+	"math"
 )
 
 // Add length prefix to message
 func AddRequestFormat(p []byte) ([]byte, error) {
+	if len(p) > math.MaxUint8 {
+		// the length prefix is a single byte; a longer message would be
+		// silently truncated by the decoder
+		return nil, errors.New("message too long for request format")
+	}
 	length := uint8(len(p))
 	prefixed := append([]byte{length}, p...)
 	return prefixed, nil
@@ -26,6 +32,10 @@ func RemoveRequestFormat(p []byte) ([]byte, error) {
 
 // Add length prefix to response, using uint16 instad of uint8 for larger payload
 func AddResponseFormat(p []byte) ([]byte, error) {
+	if len(p) > math.MaxUint16 {
+		// the length prefix is two bytes
+		return nil, errors.New("message too long for response format")
+	}
 	length := uint16(len(p))
 	b := make([]byte, 2)
 	binary.BigEndian.PutUint16(b, length)
